@@ -98,8 +98,9 @@ CONFIG["C04"] = dict(
     trusted_base=["text/scanner, strconv, unicode (stdlib) modelled in Lean, validated by correspondence", "the grammar generator computes the oracle (expected definitions and positions) independently of the parser; floats via strconv.ParseFloat"],
 )
 CONFIG["C12"] = dict(
-    level_text="Kernel-checked Lean theorems (Props/C12.lean) about the executable parser model: it is a total function on every byte string with outcome ok/error/panic/out-of-fuel (termination by construction: every loop is structurally recursive on a fuel argument), never produces the panic outcome (all partial Go operations are guarded in the transcription), error positions lie inside the input; the model is compared with the real parser on fixed edge inputs, mutated generated files (byte flips, NUL, invalid UTF-8, truncation, token splices, huge numbers, repetition), random bytes, and the locality clause on every generated file x definition index x corruption operator (each input parsed twice under recover).",
-    level_note="Partial: the out-of-fuel outcome is not proved unreachable (the fuel is input length + 2 per loop; checked never to occur on any executed input). Go runtime panics outside the modelled partial operations and stdlib behaviour are covered by correspondence only.",
+    modules=["CanVerif.Props.C12", "CanVerif.Props.C12Term"],
+    level_text="Kernel-checked Lean theorems about the executable parser model (a transcription of text/scanner and pkg/dbc). Termination (Props/C12Term.lean): every loop of the model carries a bound and reaching it is an outcome of its own (outOfFuel; scanner loops report it through ScanErr.fuel), never a silent stop; C12_terminates proves for every byte sequence that no bound is reached (measure: unread characters + pending look-ahead character + pending look-ahead token never increases, every token other than EOF and every character read decreases it, every continuing loop iteration and every definition consumes input; straight-line code by the Std.Do verification-condition generator from the primitives' specifications, loops by induction), so the result is what the unbounded Go loops compute and they terminate; the decoder's bound likewise (C12_decoder_bound). Props/C12.lean: the outcome is a function of the bytes, classified ok/positioned error/panic; accepted definitions are only ever appended (prefix stability, errors report exactly the definitions accepted so far). The model is compared with the real parser on fixed edge inputs, mutated generated files (byte flips, NUL, invalid UTF-8, truncation, token splices, huge numbers, repetition), random bytes, and the locality clause on every generated file x definition index x corruption operator (each input parsed twice under recover).",
+    level_note="Partial: the single modelled panic site (tok.txt[0] on an identifier token) is not proved unreachable, and that the error position is not before the corrupted definition is decided per run. Go runtime panics outside the modelled partial operations and stdlib behaviour are covered by correspondence only.",
     level="proof",
     trivial=r"^(ok 0 ;; -|local no-error)$",
     rule="inputs: fixed edge list + mutations of grammar-derived files + random bytes + locality corruptions; non-trivial = not the empty parse and not a vacuous locality case",
